@@ -7,7 +7,7 @@
      Reset  {sid, n, akind, gen, slotms, spe, hdrok, rfp}   configuration: n addresses (kind "ok" | "bad": url.Parse rejects it),
                                                             genesis (ms, relative to the bubble's start), slot duration, slots
                                                             per epoch, whether the headers parse, the fixed jitter of expbackoff
-     Start  {ok}                                            StartListener returned (without error?)
+     Start / Started {ok}                                   StartListener is about to be called / has returned (without error?)
      Sub    {kind, id}                                      Subscribe{Head,ChainReorg}Event is about to be called
      Dial   {a, k, how, code, path, topics, accept, hdr}    the k-th connect of address a reached the environment, which refuses it
                                                             or answers the request (whose shape is recorded) with `code`
@@ -17,6 +17,7 @@
                                                             since, which of the listener's histograms moved (count, sum in ms), the
                                                             head-slot gauge of a
      NoListener                                             a Sub step after StartListener failed
+     Skip   {a}                                             a Chunk step that continues a line whose beginning this connection never got: not applied
      NoConn {a}                                             a Chunk / Close step found no open connection of a
      Close  {a, k, how}                                     the environment is about to end connection k: "eof" | "abrupt" | "reset"
      Gone   {a, k}                                          the server saw the CLIENT close connection k
@@ -43,7 +44,9 @@ Idle == ~exp.on
 Proph(a) == LET K == {k \in (l + 1)..TLen : Trace[k].ev = "Dial" /\ Trace[k].a = a} IN IF K = {} THEN None ELSE Trace[Min(K)].t
 
 TReset == IsEvent("Reset") /\ l = 1 /\ UNCHANGED <<vars, exp, obsGone>>
-TStart == /\ IsEvent("Start") /\ AtT /\ Idle /\ Start /\ Named("StartResult", Ev.ok = conf.hdrok) /\ UNCHANGED <<exp, obsGone>>
+TStart == IsEvent("Start") /\ AtT /\ Idle /\ Start /\ UNCHANGED <<exp, obsGone>>
+TStarted == /\ IsEvent("Started") /\ AtT /\ Idle /\ ctx # "idle" /\ Named("StartResult", Ev.ok = (ctx # "failed"))
+            /\ UNCHANGED <<vars, exp, obsGone>>
 TSub == IsEvent("Sub") /\ AtT /\ Idle /\ Sub(Ev.kind, Ev.id) /\ UNCHANGED <<exp, obsGone>>
 TDial == /\ IsEvent("Dial") /\ AtT /\ KnownA
          /\ Named("UnexpectedDial", ctx = "run" /\ cl[Ev.a].st = "dial")
@@ -72,6 +75,8 @@ TOut == /\ IsEvent("Out") /\ AtT /\ exp.on /\ Ev.a = exp.a
         /\ exp' = NoExp /\ UNCHANGED <<vars, obsGone>>
 TNoConn == /\ IsEvent("NoConn") /\ AtT /\ KnownA /\ Idle /\ Named("ConnExpected", cl[Ev.a].st # "open")
            /\ UNCHANGED <<vars, exp, obsGone>>
+\* a Chunk step that continues a line this connection has not seen the beginning of: not applied
+TSkip == IsEvent("Skip") /\ AtT /\ KnownA /\ Idle /\ UNCHANGED <<vars, exp, obsGone>>
 TClose == /\ IsEvent("Close") /\ AtT /\ KnownA /\ Idle
           /\ Named("ConnUnexpected", cl[Ev.a].st = "open" /\ cl[Ev.a].k = Ev.k)
           /\ Close(Ev.a, Ev.how, Proph(Ev.a)) /\ UNCHANGED <<exp, obsGone>>
@@ -87,7 +92,7 @@ TEnd == /\ IsEvent("End") /\ AtT /\ Idle /\ UNCHANGED <<vars, exp, obsGone>>
 TSilent == /\ Silent /\ UNCHANGED <<exp, obsGone>>
            /\ \/ \E a \in Addrs : Wake(a)
               \/ (l <= TLen /\ Tick(IF NextTimer < Ev.t THEN NextTimer ELSE Ev.t))
-TraceNext == TReset \/ TStart \/ TSub \/ TDial \/ TChunk \/ TOut \/ TNoConn \/ TClose \/ TGone \/ TCancel \/ TNoListener \/ TEnd \/ TSilent
+TraceNext == TReset \/ TStart \/ TStarted \/ TSub \/ TDial \/ TChunk \/ TOut \/ TNoConn \/ TSkip \/ TClose \/ TGone \/ TCancel \/ TNoListener \/ TEnd \/ TSilent
 TraceSpec == TraceInit /\ [][TraceNext]_tvars
 Mark == /\ CheckInv("WakeInRange", WakeInRange) /\ CheckInv("HeadDelivered", HeadDelivered) /\ CheckInv("NoSpurious", NoSpurious)
         /\ CheckInv("ReorgDelivered", ReorgDelivered) /\ CheckInv("DelayFromSlotStart", DelayFromSlotStart)
